@@ -818,11 +818,17 @@ impl MediaSection {
             })
             .collect();
 
+        // A payload type names one codec: look at each PT of the m= line once
+        // (a hostile m= line can repeat a PT thousands of times).
+        let mut seen = [false; 256];
         for fmt in &self.formats {
             let payload_type: u8 = match fmt.parse() {
                 Ok(pt) => pt,
                 Err(_) => continue,
             };
+            if std::mem::replace(&mut seen[payload_type as usize], true) {
+                continue;
+            }
 
             // Parse rtpmap for this payload type
             let mut codec_name = String::new();
@@ -921,11 +927,17 @@ impl MediaSection {
 
         let mut capabilities = Vec::new();
 
+        // A payload type names one codec: look at each PT of the m= line once
+        // (a hostile m= line can repeat a PT thousands of times).
+        let mut seen = [false; 256];
         for fmt in &self.formats {
             let payload_type: u8 = match fmt.parse() {
                 Ok(pt) => pt,
                 Err(_) => continue,
             };
+            if std::mem::replace(&mut seen[payload_type as usize], true) {
+                continue;
+            }
 
             // Parse rtpmap for this payload type
             let mut codec_name = String::new();
